@@ -144,7 +144,7 @@ func (c04) Run(c *Ctx, i int) CaseResult {
 				!ref.Out.PlanErr && !ref.Out.Hung && ref.Out.Panicked == nil {
 				if js := joinSites(ref.Fed, ref.Out.Plans); len(js) > 0 {
 					j := js[r.Intn(len(js))]
-					in.Faults = []FaultSpec{{Service: j.svc, MatchID: j.id, Kind: []string{"join-retype", "join-scalar"}[r.Intn(2)], Path: j.path}}
+					in.Faults = []FaultSpec{{Service: j.svc, MatchID: j.id, Kind: []string{"join-retype", "join-scalar", "join-null+error"}[r.Intn(3)], Path: j.path}}
 					feats["join-fault"] = true
 					loose = true
 				}
